@@ -148,7 +148,16 @@ pub fn replay() {
             }
         } else {
             let x = &vec["v"];
-            let t0 = rules::rule_text(&x["rule"], &t);
+            let mut t0 = rules::rule_text(&x["rule"], &t);
+            // `/ _` and `| _` written out are rules too (and have their own path through the environment parser)
+            {
+                let mut r0 = Rng::new(x["sp1"].as_u64().unwrap() ^ 0x5bd1);
+                if !t0.contains(" / ") && r0.chance(1, 3) {
+                    t0 = match t0.find(" | ") { Some(p) => format!("{} / _{}", &t0[..p], &t0[p..]), None => format!("{t0} / _") };
+                    sum.count("bare_underline_context", 1);
+                }
+                if !t0.contains(" | ") && r0.chance(1, 12) { t0 = format!("{t0} | _"); sum.count("bare_underline_exception", 1); }
+            }
             let (t1, t2) = (respell_rule(&t0, x["sp1"].as_u64().unwrap(), &lex), respell_rule(&t0, x["sp2"].as_u64().unwrap(), &lex));
             let mut rng = Rng::new(seed.wrapping_mul(131).wrapping_add(vec["seed"].as_u64().unwrap()));
             for k in 0..3 {
